@@ -317,7 +317,7 @@ func (c *SpecCtx) indexVal(x, i Val) Val {
 			cs := flatten(mt.Elem())
 			ts := make([]string, len(cs))
 			for k, cc := range cs {
-				ts[k] = sel(sel(e.harr(h, mapVal(mt, cc.Suffix), arrSort('V', cc.Sort)), x.S), i.S)
+				ts[k] = sel(sel(e.harr(h, mapVal(mt, cc), arrSort('V', cc.Sort)), x.S), i.S)
 			}
 			v, _ := fromComps(mt.Elem(), ts)
 			return v
@@ -429,7 +429,7 @@ func (c *SpecCtx) evalCall(n *SNode) Val {
 		case x.K == kSlice:
 			return scalar(tInt, x.Len)
 		case x.T != nil && isString(x.T):
-			return scalar(tInt, sx("str.len", x.S))
+			return scalar(tInt, sx("gstr.len", x.S))
 		}
 		if mt, ok := x.T.Underlying().(*types.Map); ok {
 			return scalar(tInt, sel(e.harr(h, mapLen(mt), arrSort('L', "")), x.S))
@@ -624,17 +624,30 @@ func (n *SNode) Src2() string {
 
 // evalSplit evaluates a boolean spec and splits it into conjuncts (through &&, ==>, forall and
 // predicate bodies), so that every conjunct becomes its own small obligation.
+type splitPart struct {
+	Term string
+	Desc string
+}
+
 func (c *SpecCtx) evalSplit(n *SNode) []string {
+	var out []string
+	for _, p := range c.evalSplitL(n) {
+		out = append(out, p.Term)
+	}
+	return out
+}
+
+func (c *SpecCtx) evalSplitL(n *SNode) []splitPart {
 	switch n.Op {
 	case "bin":
 		switch n.Name {
 		case "&&":
-			return append(c.evalSplit(n.Args[0]), c.evalSplit(n.Args[1])...)
+			return append(c.evalSplitL(n.Args[0]), c.evalSplitL(n.Args[1])...)
 		case "==>":
 			lhs := c.evalBool(n.Args[0])
-			var out []string
-			for _, g := range c.evalSplit(n.Args[1]) {
-				out = append(out, implies(lhs, g))
+			var out []splitPart
+			for _, g := range c.evalSplitL(n.Args[1]) {
+				out = append(out, splitPart{implies(lhs, g.Term), n.Args[0].Text() + " ==> " + g.Desc})
 			}
 			return out
 		}
@@ -660,17 +673,21 @@ func (c *SpecCtx) evalSplit(n *SNode) []string {
 			nb[sv.Name] = scalar(t, q(vn))
 		}
 		c.bound = nb
-		parts := c.evalSplit(n.Args[0])
+		parts := c.evalSplitL(n.Args[0])
 		c.bound = saved
-		var out []string
+		var vs []string
+		for _, sv := range n.Vars {
+			vs = append(vs, sv.Name)
+		}
+		var out []splitPart
 		for _, p := range parts {
-			if p == "true" {
+			if p.Term == "true" {
 				continue
 			}
-			out = append(out, fmt.Sprintf("(forall (%s) %s)", strings.Join(decl, " "), p))
+			out = append(out, splitPart{fmt.Sprintf("(forall (%s) %s)", strings.Join(decl, " "), p.Term), "forall " + strings.Join(vs, ",") + " :: " + p.Desc})
 		}
 		if len(out) == 0 {
-			out = []string{"true"}
+			out = []splitPart{{"true", "true"}}
 		}
 		return out
 	case "call":
@@ -700,11 +717,14 @@ func (c *SpecCtx) evalSplit(n *SNode) []string {
 			savedPkg := c.pkg
 			c.bound = nb
 			c.pkg = pd.Pkg
-			out := c.evalSplit(pd.Body)
+			out := c.evalSplitL(pd.Body)
 			c.bound = saved
 			c.pkg = savedPkg
+			for i := range out {
+				out[i].Desc = n.Name + ": " + out[i].Desc
+			}
 			return out
 		}
 	}
-	return []string{c.evalBool(n)}
+	return []splitPart{{c.evalBool(n), n.Text()}}
 }
